@@ -130,8 +130,8 @@ static char wallarea[3 * 4096] __attribute__((aligned(4096)));
 static char *wallpage;
 static long objpool[NSLOT][4];
 
-/* three pages at a fixed address: readable, unmapped (a hole), readable */
-#define HOLE_BASE 0x30000000UL
+/* three pages: readable, unmapped (a hole punched into .bss at start-up), readable */
+static char holearea[3 * 4096] __attribute__((aligned(4096)));
 static unsigned long holepage;
 
 static volatile int cur_opno;
@@ -203,13 +203,8 @@ int main(void)
 		sigaction(SIGSEGV, &sa, NULL);
 		sigaction(SIGBUS, &sa, NULL);
 	}
-	{
-		void *h = mmap((void *)HOLE_BASE, 3 * page, PROT_READ | PROT_WRITE,
-			       MAP_PRIVATE | MAP_ANONYMOUS | MAP_FIXED_NOREPLACE, -1, 0);
-
-		if (h == (void *)HOLE_BASE && munmap((char *)h + page, page) == 0)
-			holepage = HOLE_BASE + page;
-	}
+	if (munmap(holearea + page, page) == 0)
+		holepage = (unsigned long)holearea + page;
 	wallpage = wallarea;
 	nonepage = wallarea + page + 16;
 	if (mprotect(wallarea + page, page, PROT_NONE) < 0) {
